@@ -1,9 +1,9 @@
 """Seeded-change bookkeeping.
 
-  seedtool.py import Cxx /tmp/seed_Cxx     copy mutK.diff / demoK.py / mutK.txt into /verif/seeded/Cxx/mK/
+  seedtool.py import Cxx /tmp/seed_Cxx     copy mutK.diff / demoK.py / mutK.txt into /verif/seeded/Cxx-mK/
   seedtool.py test Cxx [mK ...] [--tier quick] [--checks C02,C03]
         for each stored change: git apply it to /repo, run the property's check(s), record the
-        outcome in /verif/seeded/Cxx/mK/meta.json, then `git -C /repo checkout -- .`
+        outcome in /verif/seeded/Cxx-mK/meta.json, then `git -C /repo checkout -- .`
 
 The changes are never committed to /repo.
 """
@@ -30,14 +30,14 @@ def do_import(pid, src):
     n = 0
     for diff in sorted(src.glob('mut*.diff')):
         k = re.search(r'mut(\d+)', diff.name).group(1)
-        dst = SEEDED / pid / f'm{k}'
+        dst = SEEDED / f'{pid}-m{k}'
         dst.mkdir(parents=True, exist_ok=True)
         shutil.copy(diff, dst / 'patch.diff')
         demo = src / f'demo{k}.py'
         if demo.exists():
             shutil.copy(demo, dst / 'demo.py')
         txt = (src / f'mut{k}.txt').read_text() if (src / f'mut{k}.txt').exists() else ''
-        meta = dict(property=pid, id=f'{pid}/m{k}', origin='sub-agent given only the property text and a scratch worktree',
+        meta = dict(property=pid, id=f'{pid}-m{k}', origin='sub-agent given only the property text and a scratch worktree',
                     description=txt.strip(), files=sorted(set(re.findall(r'^\+\+\+ b/(\S+)', diff.read_text(), re.M))),
                     baseline_tests='187 passed with the change applied (reported by the seeding agent)')
         mp = dst / 'meta.json'
@@ -55,10 +55,10 @@ def clean_repo():
 
 
 def do_test(pid, names, tier, checks):
-    base = SEEDED / pid
-    names = names or sorted(p.name for p in base.iterdir() if p.is_dir())
+    names = [f'{pid}-{n}' if not n.startswith(pid) else n for n in names] or \
+        sorted(p.name for p in SEEDED.iterdir() if p.is_dir() and p.name.startswith(pid + '-'))
     for nm in names:
-        d = base / nm
+        d = SEEDED / nm
         meta = json.loads((d / 'meta.json').read_text())
         st = sh(f'git -C {REPO} status --porcelain')
         if st.stdout.strip():
